@@ -123,6 +123,7 @@ struct Interp {
   std::vector<char> checked_face;  // per face uid: built from a vertex list or accepted with topology check, not modified since
   Stats *st = nullptr;
   bool allow_set = true;       // set_edge/set_face/set_cell allowed in this target
+  bool allow_membrane = false; // add_cone may build a double cone stored as ONE cell that contains both halffaces of its base
   bool allow_selfloop = true;
   bool dedup_safe = true;      // skip add_edge(dedupe) when several parallel live edges exist
   size_t max_vertices = 40;
@@ -1171,6 +1172,26 @@ struct Interp {
         if (hfs[i] == hfs[j]) { count("skip:cone_repeats_halfface"); return true; }
     int c;
     count("cells_built");
+    // double cone over a face that is free on both sides, stored as one cell: a closed cell containing both halffaces
+    // of a face (an internal membrane)
+    if (allow_membrane && a[4] % 3 == 0 && L.hf_free(HFu{base.f, base.s ^ 1}) && L.n_live(KV) < max_vertices) {
+      int apex2 = (int)L.V.size();
+      if (!prim_add_vertex(true)) return false;
+      HFu obase{base.f, base.s ^ 1};
+      auto ohes = L.hf_hes(obase);
+      std::map<int, int> spoke2;
+      for (int v : bv) { int e; if (!edge_for(v, apex2, a[2], false, e)) return fail.empty(); spoke2[v] = e; }
+      hfs.push_back(obase);
+      for (auto he : ohes) {
+        int x = L.he_from(he), y = L.he_to(he);
+        std::vector<HEu> cyc{HEu{he.e, he.s ^ 1}, he_dir(spoke2[x], x), he_dir(spoke2[y], apex2)};
+        int f;
+        if (!prim_add_face_he(cyc, false, f)) return false;
+        hfs.push_back(HFu{f, 0});
+      }
+      count("membrane_cells_built");
+      return prim_add_cell(hfs, false, c);
+    }
     count("cones_glued");
     return prim_add_cell(hfs, a[3] & 1, c);
   }
